@@ -326,65 +326,65 @@ macro_rules! c17_dyn {
     };
 }
 
-// @h c17_dyn_u8_u8x2 | prop=C17 | tier=thorough | t=1500 | enc=change_type_of_pixel_components (dynamic dispatch), Image::new, Image::image_view(_mut) | bounds=enumerated: U8 -> U8x2, 1x1 zero image; unwind 6
+// @h c17_dyn_u8_u8x2 | prop=C17 | tier=thorough | t=1500 | mem=14 | enc=change_type_of_pixel_components (dynamic dispatch), Image::new, Image::image_view(_mut) | bounds=enumerated: U8 -> U8x2, 1x1 zero image; unwind 6
 c17_dyn!(c17_dyn_u8_u8x2, 0, 1);
-// @h c17_dyn_u8_u16 | prop=C17 | tier=thorough | t=1500 | enc=change_type_of_pixel_components (dynamic dispatch), Image::new, Image::image_view(_mut) | bounds=enumerated: U8 -> U16, 1x1 zero image; unwind 6
+// @h c17_dyn_u8_u16 | prop=C17 | tier=thorough | t=1500 | mem=14 | enc=change_type_of_pixel_components (dynamic dispatch), Image::new, Image::image_view(_mut) | bounds=enumerated: U8 -> U16, 1x1 zero image; unwind 6
 c17_dyn!(c17_dyn_u8_u16, 0, 4);
-// @h c17_dyn_u8_i32 | prop=C17 | tier=quick | t=1500 | enc=change_type_of_pixel_components (dynamic dispatch), Image::new, Image::image_view(_mut) | bounds=enumerated: U8 -> I32, 1x1 zero image; unwind 6
+// @h c17_dyn_u8_i32 | prop=C17 | tier=quick | t=1500 | mem=14 | enc=change_type_of_pixel_components (dynamic dispatch), Image::new, Image::image_view(_mut) | bounds=enumerated: U8 -> I32, 1x1 zero image; unwind 6
 c17_dyn!(c17_dyn_u8_i32, 0, 8);
-// @h c17_dyn_u8x2_u8x3 | prop=C17 | tier=quick | t=1500 | enc=change_type_of_pixel_components (dynamic dispatch), Image::new, Image::image_view(_mut) | bounds=enumerated: U8x2 -> U8x3, 1x1 zero image; unwind 6
+// @h c17_dyn_u8x2_u8x3 | prop=C17 | tier=quick | t=1500 | mem=14 | enc=change_type_of_pixel_components (dynamic dispatch), Image::new, Image::image_view(_mut) | bounds=enumerated: U8x2 -> U8x3, 1x1 zero image; unwind 6
 c17_dyn!(c17_dyn_u8x2_u8x3, 1, 2);
-// @h c17_dyn_u8x2_u16x2 | prop=C17 | tier=quick | t=1500 | enc=change_type_of_pixel_components (dynamic dispatch), Image::new, Image::image_view(_mut) | bounds=enumerated: U8x2 -> U16x2, 1x1 zero image; unwind 6
+// @h c17_dyn_u8x2_u16x2 | prop=C17 | tier=quick | t=1500 | mem=14 | enc=change_type_of_pixel_components (dynamic dispatch), Image::new, Image::image_view(_mut) | bounds=enumerated: U8x2 -> U16x2, 1x1 zero image; unwind 6
 c17_dyn!(c17_dyn_u8x2_u16x2, 1, 5);
-// @h c17_dyn_u8x2_u16x4 | prop=C17 | tier=thorough | t=1500 | enc=change_type_of_pixel_components (dynamic dispatch), Image::new, Image::image_view(_mut) | bounds=enumerated: U8x2 -> U16x4, 1x1 zero image; unwind 6
+// @h c17_dyn_u8x2_u16x4 | prop=C17 | tier=thorough | t=1500 | mem=14 | enc=change_type_of_pixel_components (dynamic dispatch), Image::new, Image::image_view(_mut) | bounds=enumerated: U8x2 -> U16x4, 1x1 zero image; unwind 6
 c17_dyn!(c17_dyn_u8x2_u16x4, 1, 7);
-// @h c17_dyn_u8x3_u8 | prop=C17 | tier=thorough | t=1500 | enc=change_type_of_pixel_components (dynamic dispatch), Image::new, Image::image_view(_mut) | bounds=enumerated: U8x3 -> U8, 1x1 zero image; unwind 6
+// @h c17_dyn_u8x3_u8 | prop=C17 | tier=thorough | t=1500 | mem=14 | enc=change_type_of_pixel_components (dynamic dispatch), Image::new, Image::image_view(_mut) | bounds=enumerated: U8x3 -> U8, 1x1 zero image; unwind 6
 c17_dyn!(c17_dyn_u8x3_u8, 2, 0);
-// @h c17_dyn_u8x3_u16x3 | prop=C17 | tier=thorough | t=1500 | enc=change_type_of_pixel_components (dynamic dispatch), Image::new, Image::image_view(_mut) | bounds=enumerated: U8x3 -> U16x3, 1x1 zero image; unwind 6
+// @h c17_dyn_u8x3_u16x3 | prop=C17 | tier=thorough | t=1500 | mem=14 | enc=change_type_of_pixel_components (dynamic dispatch), Image::new, Image::image_view(_mut) | bounds=enumerated: U8x3 -> U16x3, 1x1 zero image; unwind 6
 c17_dyn!(c17_dyn_u8x3_u16x3, 2, 6);
-// @h c17_dyn_u8x4_u16x3 | prop=C17 | tier=thorough | t=1500 | enc=change_type_of_pixel_components (dynamic dispatch), Image::new, Image::image_view(_mut) | bounds=enumerated: U8x4 -> U16x3, 1x1 zero image; unwind 6
+// @h c17_dyn_u8x4_u16x3 | prop=C17 | tier=thorough | t=1500 | mem=14 | enc=change_type_of_pixel_components (dynamic dispatch), Image::new, Image::image_view(_mut) | bounds=enumerated: U8x4 -> U16x3, 1x1 zero image; unwind 6
 c17_dyn!(c17_dyn_u8x4_u16x3, 3, 6);
-// @h c17_dyn_u8x4_u16x4 | prop=C17 | tier=thorough | t=1500 | enc=change_type_of_pixel_components (dynamic dispatch), Image::new, Image::image_view(_mut) | bounds=enumerated: U8x4 -> U16x4, 1x1 zero image; unwind 6
+// @h c17_dyn_u8x4_u16x4 | prop=C17 | tier=thorough | t=1500 | mem=14 | enc=change_type_of_pixel_components (dynamic dispatch), Image::new, Image::image_view(_mut) | bounds=enumerated: U8x4 -> U16x4, 1x1 zero image; unwind 6
 c17_dyn!(c17_dyn_u8x4_u16x4, 3, 7);
-// @h c17_dyn_u16_u8 | prop=C17 | tier=thorough | t=1500 | enc=change_type_of_pixel_components (dynamic dispatch), Image::new, Image::image_view(_mut) | bounds=enumerated: U16 -> U8, 1x1 zero image; unwind 6
+// @h c17_dyn_u16_u8 | prop=C17 | tier=thorough | t=1500 | mem=14 | enc=change_type_of_pixel_components (dynamic dispatch), Image::new, Image::image_view(_mut) | bounds=enumerated: U16 -> U8, 1x1 zero image; unwind 6
 c17_dyn!(c17_dyn_u16_u8, 4, 0);
-// @h c17_dyn_u16_u8x4 | prop=C17 | tier=thorough | t=1500 | enc=change_type_of_pixel_components (dynamic dispatch), Image::new, Image::image_view(_mut) | bounds=enumerated: U16 -> U8x4, 1x1 zero image; unwind 6
+// @h c17_dyn_u16_u8x4 | prop=C17 | tier=thorough | t=1500 | mem=14 | enc=change_type_of_pixel_components (dynamic dispatch), Image::new, Image::image_view(_mut) | bounds=enumerated: U16 -> U8x4, 1x1 zero image; unwind 6
 c17_dyn!(c17_dyn_u16_u8x4, 4, 3);
-// @h c17_dyn_u16_u16 | prop=C17 | tier=thorough | t=1500 | enc=change_type_of_pixel_components (dynamic dispatch), Image::new, Image::image_view(_mut) | bounds=enumerated: U16 -> U16, 1x1 zero image; unwind 6
+// @h c17_dyn_u16_u16 | prop=C17 | tier=thorough | t=1500 | mem=14 | enc=change_type_of_pixel_components (dynamic dispatch), Image::new, Image::image_view(_mut) | bounds=enumerated: U16 -> U16, 1x1 zero image; unwind 6
 c17_dyn!(c17_dyn_u16_u16, 4, 4);
-// @h c17_dyn_u16x2_u8x2 | prop=C17 | tier=thorough | t=1500 | enc=change_type_of_pixel_components (dynamic dispatch), Image::new, Image::image_view(_mut) | bounds=enumerated: U16x2 -> U8x2, 1x1 zero image; unwind 6
+// @h c17_dyn_u16x2_u8x2 | prop=C17 | tier=thorough | t=1500 | mem=14 | enc=change_type_of_pixel_components (dynamic dispatch), Image::new, Image::image_view(_mut) | bounds=enumerated: U16x2 -> U8x2, 1x1 zero image; unwind 6
 c17_dyn!(c17_dyn_u16x2_u8x2, 5, 1);
-// @h c17_dyn_u16x2_u16x4 | prop=C17 | tier=thorough | t=1500 | enc=change_type_of_pixel_components (dynamic dispatch), Image::new, Image::image_view(_mut) | bounds=enumerated: U16x2 -> U16x4, 1x1 zero image; unwind 6
+// @h c17_dyn_u16x2_u16x4 | prop=C17 | tier=thorough | t=1500 | mem=14 | enc=change_type_of_pixel_components (dynamic dispatch), Image::new, Image::image_view(_mut) | bounds=enumerated: U16x2 -> U16x4, 1x1 zero image; unwind 6
 c17_dyn!(c17_dyn_u16x2_u16x4, 5, 7);
-// @h c17_dyn_u16x3_u8 | prop=C17 | tier=thorough | t=1500 | enc=change_type_of_pixel_components (dynamic dispatch), Image::new, Image::image_view(_mut) | bounds=enumerated: U16x3 -> U8, 1x1 zero image; unwind 6
+// @h c17_dyn_u16x3_u8 | prop=C17 | tier=thorough | t=1500 | mem=14 | enc=change_type_of_pixel_components (dynamic dispatch), Image::new, Image::image_view(_mut) | bounds=enumerated: U16x3 -> U8, 1x1 zero image; unwind 6
 c17_dyn!(c17_dyn_u16x3_u8, 6, 0);
-// @h c17_dyn_u16x3_u8x3 | prop=C17 | tier=thorough | t=1500 | enc=change_type_of_pixel_components (dynamic dispatch), Image::new, Image::image_view(_mut) | bounds=enumerated: U16x3 -> U8x3, 1x1 zero image; unwind 6
+// @h c17_dyn_u16x3_u8x3 | prop=C17 | tier=thorough | t=1500 | mem=14 | enc=change_type_of_pixel_components (dynamic dispatch), Image::new, Image::image_view(_mut) | bounds=enumerated: U16x3 -> U8x3, 1x1 zero image; unwind 6
 c17_dyn!(c17_dyn_u16x3_u8x3, 6, 2);
-// @h c17_dyn_u16x4_u8x4 | prop=C17 | tier=thorough | t=1500 | enc=change_type_of_pixel_components (dynamic dispatch), Image::new, Image::image_view(_mut) | bounds=enumerated: U16x4 -> U8x4, 1x1 zero image; unwind 6
+// @h c17_dyn_u16x4_u8x4 | prop=C17 | tier=thorough | t=1500 | mem=14 | enc=change_type_of_pixel_components (dynamic dispatch), Image::new, Image::image_view(_mut) | bounds=enumerated: U16x4 -> U8x4, 1x1 zero image; unwind 6
 c17_dyn!(c17_dyn_u16x4_u8x4, 7, 3);
-// @h c17_dyn_u16x4_u16x3 | prop=C17 | tier=thorough | t=1500 | enc=change_type_of_pixel_components (dynamic dispatch), Image::new, Image::image_view(_mut) | bounds=enumerated: U16x4 -> U16x3, 1x1 zero image; unwind 6
+// @h c17_dyn_u16x4_u16x3 | prop=C17 | tier=thorough | t=1500 | mem=14 | enc=change_type_of_pixel_components (dynamic dispatch), Image::new, Image::image_view(_mut) | bounds=enumerated: U16x4 -> U16x3, 1x1 zero image; unwind 6
 c17_dyn!(c17_dyn_u16x4_u16x3, 7, 6);
-// @h c17_dyn_i32_u8 | prop=C17 | tier=thorough | t=1500 | enc=change_type_of_pixel_components (dynamic dispatch), Image::new, Image::image_view(_mut) | bounds=enumerated: I32 -> U8, 1x1 zero image; unwind 6
+// @h c17_dyn_i32_u8 | prop=C17 | tier=thorough | t=1500 | mem=14 | enc=change_type_of_pixel_components (dynamic dispatch), Image::new, Image::image_view(_mut) | bounds=enumerated: I32 -> U8, 1x1 zero image; unwind 6
 c17_dyn!(c17_dyn_i32_u8, 8, 0);
-// @h c17_dyn_i32_u16x3 | prop=C17 | tier=thorough | t=1500 | enc=change_type_of_pixel_components (dynamic dispatch), Image::new, Image::image_view(_mut) | bounds=enumerated: I32 -> U16x3, 1x1 zero image; unwind 6
+// @h c17_dyn_i32_u16x3 | prop=C17 | tier=thorough | t=1500 | mem=14 | enc=change_type_of_pixel_components (dynamic dispatch), Image::new, Image::image_view(_mut) | bounds=enumerated: I32 -> U16x3, 1x1 zero image; unwind 6
 c17_dyn!(c17_dyn_i32_u16x3, 8, 6);
-// @h c17_dyn_f32_u8 | prop=C17 | tier=thorough | t=1500 | enc=change_type_of_pixel_components (dynamic dispatch), Image::new, Image::image_view(_mut) | bounds=enumerated: F32 -> U8, 1x1 zero image; unwind 6
+// @h c17_dyn_f32_u8 | prop=C17 | tier=thorough | t=1500 | mem=14 | enc=change_type_of_pixel_components (dynamic dispatch), Image::new, Image::image_view(_mut) | bounds=enumerated: F32 -> U8, 1x1 zero image; unwind 6
 c17_dyn!(c17_dyn_f32_u8, 9, 0);
-// @h c17_dyn_f32_u8x2 | prop=C17 | tier=thorough | t=1500 | enc=change_type_of_pixel_components (dynamic dispatch), Image::new, Image::image_view(_mut) | bounds=enumerated: F32 -> U8x2, 1x1 zero image; unwind 6
+// @h c17_dyn_f32_u8x2 | prop=C17 | tier=thorough | t=1500 | mem=14 | enc=change_type_of_pixel_components (dynamic dispatch), Image::new, Image::image_view(_mut) | bounds=enumerated: F32 -> U8x2, 1x1 zero image; unwind 6
 c17_dyn!(c17_dyn_f32_u8x2, 9, 1);
-// @h c17_dyn_f32_u16x2 | prop=C17 | tier=quick | t=1500 | enc=change_type_of_pixel_components (dynamic dispatch), Image::new, Image::image_view(_mut) | bounds=enumerated: F32 -> U16x2, 1x1 zero image; unwind 6
+// @h c17_dyn_f32_u16x2 | prop=C17 | tier=quick | t=1500 | mem=14 | enc=change_type_of_pixel_components (dynamic dispatch), Image::new, Image::image_view(_mut) | bounds=enumerated: F32 -> U16x2, 1x1 zero image; unwind 6
 c17_dyn!(c17_dyn_f32_u16x2, 9, 5);
-// @h c17_dyn_f32x2_u8 | prop=C17 | tier=thorough | t=1500 | enc=change_type_of_pixel_components (dynamic dispatch), Image::new, Image::image_view(_mut) | bounds=enumerated: F32x2 -> U8, 1x1 zero image; unwind 6
+// @h c17_dyn_f32x2_u8 | prop=C17 | tier=thorough | t=1500 | mem=14 | enc=change_type_of_pixel_components (dynamic dispatch), Image::new, Image::image_view(_mut) | bounds=enumerated: F32x2 -> U8, 1x1 zero image; unwind 6
 c17_dyn!(c17_dyn_f32x2_u8, 10, 0);
-// @h c17_dyn_f32x2_u8x2 | prop=C17 | tier=thorough | t=1500 | enc=change_type_of_pixel_components (dynamic dispatch), Image::new, Image::image_view(_mut) | bounds=enumerated: F32x2 -> U8x2, 1x1 zero image; unwind 6
+// @h c17_dyn_f32x2_u8x2 | prop=C17 | tier=thorough | t=1500 | mem=14 | enc=change_type_of_pixel_components (dynamic dispatch), Image::new, Image::image_view(_mut) | bounds=enumerated: F32x2 -> U8x2, 1x1 zero image; unwind 6
 c17_dyn!(c17_dyn_f32x2_u8x2, 10, 1);
-// @h c17_dyn_f32x3_u8x3 | prop=C17 | tier=thorough | t=1500 | enc=change_type_of_pixel_components (dynamic dispatch), Image::new, Image::image_view(_mut) | bounds=enumerated: F32x3 -> U8x3, 1x1 zero image; unwind 6
+// @h c17_dyn_f32x3_u8x3 | prop=C17 | tier=thorough | t=1500 | mem=14 | enc=change_type_of_pixel_components (dynamic dispatch), Image::new, Image::image_view(_mut) | bounds=enumerated: F32x3 -> U8x3, 1x1 zero image; unwind 6
 c17_dyn!(c17_dyn_f32x3_u8x3, 11, 2);
-// @h c17_dyn_f32x3_u16x4 | prop=C17 | tier=thorough | t=1500 | enc=change_type_of_pixel_components (dynamic dispatch), Image::new, Image::image_view(_mut) | bounds=enumerated: F32x3 -> U16x4, 1x1 zero image; unwind 6
+// @h c17_dyn_f32x3_u16x4 | prop=C17 | tier=thorough | t=1500 | mem=14 | enc=change_type_of_pixel_components (dynamic dispatch), Image::new, Image::image_view(_mut) | bounds=enumerated: F32x3 -> U16x4, 1x1 zero image; unwind 6
 c17_dyn!(c17_dyn_f32x3_u16x4, 11, 7);
-// @h c17_dyn_f32x4_u8 | prop=C17 | tier=thorough | t=1500 | enc=change_type_of_pixel_components (dynamic dispatch), Image::new, Image::image_view(_mut) | bounds=enumerated: F32x4 -> U8, 1x1 zero image; unwind 6
+// @h c17_dyn_f32x4_u8 | prop=C17 | tier=thorough | t=1500 | mem=14 | enc=change_type_of_pixel_components (dynamic dispatch), Image::new, Image::image_view(_mut) | bounds=enumerated: F32x4 -> U8, 1x1 zero image; unwind 6
 c17_dyn!(c17_dyn_f32x4_u8, 12, 0);
-// @h c17_dyn_f32x4_u8x4 | prop=C17 | tier=thorough | t=1500 | enc=change_type_of_pixel_components (dynamic dispatch), Image::new, Image::image_view(_mut) | bounds=enumerated: F32x4 -> U8x4, 1x1 zero image; unwind 6
+// @h c17_dyn_f32x4_u8x4 | prop=C17 | tier=thorough | t=1500 | mem=14 | enc=change_type_of_pixel_components (dynamic dispatch), Image::new, Image::image_view(_mut) | bounds=enumerated: F32x4 -> U8x4, 1x1 zero image; unwind 6
 c17_dyn!(c17_dyn_f32x4_u8x4, 12, 3);
-// @h c17_dyn_f32x4_f32x4 | prop=C17 | tier=thorough | t=1500 | enc=change_type_of_pixel_components (dynamic dispatch), Image::new, Image::image_view(_mut) | bounds=enumerated: F32x4 -> F32x4, 1x1 zero image; unwind 6
+// @h c17_dyn_f32x4_f32x4 | prop=C17 | tier=thorough | t=1500 | mem=14 | enc=change_type_of_pixel_components (dynamic dispatch), Image::new, Image::image_view(_mut) | bounds=enumerated: F32x4 -> F32x4, 1x1 zero image; unwind 6
 c17_dyn!(c17_dyn_f32x4_f32x4, 12, 12);
